@@ -232,6 +232,9 @@ import icontract
 from vfw.exprsupport import REC, Obj, func, kwsum, kwkeys
 
 G = 7
+# module-level names that collide with parameters of the conditions (the arguments must win)
+y = 77
+xs = [42, 42, 42]
 
 
 def _make(C):
